@@ -312,7 +312,7 @@ _PROXY = _IOProxy()
 
 
 # --------------------------------------------------------------------------- configurations
-KEEP_FILES = ("junk.zip", "foreign.zip", "crash.zip")
+KEEP_FILES = ("junk.zip", "foreign.zip", "crash.zip", "cd_sub")
 NAMES = ("t.zip", "t", "t.ZIP")      # open()/load() append ".zip" unless the name ends with it in any case
 STALE_TAGS, STALE_PARAM = (50, 51, 52), 60
 
@@ -392,10 +392,18 @@ class Impl:
         self.ml = ml
         self.quick = quick
         self.FILE = name                                   # what open() / load() are given
+        self.home = os.getcwd()                            # open() and load() are always called from here
+        self.sub = os.path.join(self.home, "cd_sub")       # ... and operation D moves the process here and back
         self.path = os.path.abspath(file_of(name))         # the file that must result
         for f in os.listdir("."):
             if f not in KEEP_FILES:
                 (shutil.rmtree if os.path.isdir(f) else os.remove)(f)
+        shutil.rmtree(self.sub, ignore_errors=True)
+        os.makedirs(self.sub)
+        self.cd = False          # is the working directory currently cd_sub?
+        self.last_code = 0
+        self.ml_eff = ml         # window of the current object (2 once it came from load())
+        self.adopted = False     # the life continues on an object loaded from the earlier run's archive
         self.stale = None
         if stale:                                          # a finished trajectory of an earlier life
             self.stale = stale_archive()
@@ -410,6 +418,10 @@ class Impl:
         self.prev_flat = None
         self.stats = {"crash_images": 0, "crash_errors": {}, "writes": 0}
 
+    @property
+    def stale_now(self):
+        return None if self.adopted else self.stale
+
     # ---- snapshots for DFS / BFS
     def snapshot(self):
         o = self.obj
@@ -418,27 +430,29 @@ class Impl:
         c._memory = deque(o._memory, maxlen=o._memory.maxlen)
         data = open(self.path, "rb").read() if os.path.exists(self.path) else None
         return (c, data, self.nadd, self.npar, list(self.P), self.opened_at, self.nclose, self.saved, self.single,
-                self.prev_flat)
+                self.prev_flat, self.cd, self.last_code, self.ml_eff, self.adopted)
 
     def restore(self, s):
         o = s[0]
         c = o.__class__.__new__(o.__class__)
         c.__dict__.update(o.__dict__)
         c._memory = deque(o._memory, maxlen=o._memory.maxlen)
-        if c._filename is not None:
-            c._filename = self.path
+        if c._filename is not None and os.path.isabs(c._filename) and c._filename != self.path:
+            c._filename = self.path          # snapshot taken in another worker's directory
         self.obj = c
         if s[1] is None:
             if os.path.exists(self.path):
                 os.remove(self.path)
         else:
             put(self.path, s[1])
-        (self.nadd, self.npar, P, self.opened_at, self.nclose, self.saved, self.single, self.prev_flat) = s[2:]
+        (self.nadd, self.npar, P, self.opened_at, self.nclose, self.saved, self.single, self.prev_flat,
+         self.cd, self.last_code, self.ml_eff, self.adopted) = s[2:]
         self.P = list(P)
 
     # ---- one operation
     def coq_op(self, op):
-        return {"O": "oO", "A": f"oA {self.nadd}", "P": f"oP {self.npar}", "C": "oC", "L": "oL", "U": "oU"}[op]
+        return {"O": "oO", "A": f"oA {self.nadd}", "P": f"oP {self.npar}", "C": "oC", "L": "oL", "U": "oU",
+                "D": None}[op]                             # D (chdir) does not exist for the model: no effect
 
     def apply(self, op):
         """-> (result code, exception class name or None)"""
@@ -464,8 +478,15 @@ class Impl:
                 h.close()
                 self.nclose += 1
             elif op == "L":
-                self.single = False
-                self.obj = OptimiserHistory.load(self.FILE)
+                new = OptimiserHistory.load(self.FILE)
+                # the life goes on with the reloaded object: closed, window 2, holding what was on disk
+                self.obj = new
+                if self.opened_at is None:                 # only possible with the archive of an earlier run,
+                    self.P, self.saved = list(STALE_TAGS), STALE_PARAM      # which this life thereby adopts
+                    self.adopted = True
+                else:
+                    self.P = self.P[:len(new)]
+                self.opened_at, self.ml_eff, self.nclose = 0, 2, max(self.nclose, 1)
             elif op == "U":
                 self.single = False
                 h.clean_up()
@@ -482,21 +503,36 @@ class Impl:
         cop = self.coq_op(op)
         _PROXY.rec = []
         try:
-            code, exc = self.apply(op)
+            if op == "D":
+                self.cd = not self.cd
+                code, exc = self.last_code, None           # the model sees nothing: result of the previous operation
+            else:
+                if self.cd and op not in "OL":
+                    os.chdir(self.sub)
+                code, exc = self.apply(op)
         finally:
+            os.chdir(self.home)
             snaps, _PROXY.rec = _PROXY.rec, None
+        self.last_code = code
         after = open(self.path, "rb").read() if os.path.exists(self.path) else None
-        s = obs_obj(self.obj)
+        try:
+            if self.cd:
+                os.chdir(self.sub)
+            s = obs_obj(self.obj)
+        finally:
+            os.chdir(self.home)
         fs = obs_fs(self.path)
         ld, lds, ldexc = obs_load(self.FILE)
         foreign = [obs_load(f)[0][0] for f in ("missing.zip", "junk.zip", "foreign.zip")]
         state_flat = flat_obj(s) + fs + ld + foreign
         digits = [code] + state_flat
         fails = self.oracles(op, code, pre, s, fs, ld, lds, foreign, state_flat)
-        stray = sorted(f for f in os.listdir(".") if f not in KEEP_FILES and os.path.abspath(f) != self.path)
+        stray = sorted(f for f in os.listdir(".") if f not in KEEP_FILES and os.path.abspath(f) != self.path) + \
+            sorted("cd_sub/" + f for f in os.listdir(self.sub))
         if stray:
             fails.append(("OptimiserHistory|stray-file", "stray-file",
-                          f"after {op} the directory holds {stray} besides {os.path.basename(self.path)}"))
+                          f"after {op} there are files {stray} besides {os.path.basename(self.path)}"
+                          + (" (the working directory was changed after open())" if "D" in op or self.cd else "")))
             for f in stray:
                 (shutil.rmtree if os.path.isdir(f) else os.remove)(f)
         if before != after:
@@ -518,14 +554,16 @@ class Impl:
                  "FileNotFoundError, ValueError, ValueError are documented")
         if not self.single:
             return fails
-        P, ml, n = self.P, self.ml, len(self.P)
+        P, ml, n = self.P, self.ml_eff, len(self.P)
         late = self.opened_at is not None and self.opened_at > ml     # an open was accepted after entries were dropped
         ncoords = count_coords(fs)
         foreign_members = foreign_content(fs, P, self.saved) if self.opened_at is not None else None
         dbl = self.nclose >= 2 and ncoords > n and not foreign_members  # a repeated close wrote entries again
-        cls = K_STALE if (self.stale and foreign_members) else (K_LATE if late else (K_DOUBLE if dbl else None))
+        cls = K_STALE if (self.stale_now and foreign_members) else (K_LATE if late else (K_DOUBLE if dbl else None))
         # misuse is rejected and changes nothing
         unchanged = pre["flat"] is None or pre["flat"] == state_flat
+        if op == "D" and not unchanged:
+            fail("chdir", "changing the working directory changed what the trajectory shows")
         if op == "A" and pre["closed"] and (code != E_RUNTIME or not unchanged):
             fail("add-after-close", f"add() on a closed trajectory: {cname(code)}, state unchanged={unchanged}; RuntimeError required")
         if op == "O" and pre["opened"] and (code != E_RUNTIME or not unchanged):
@@ -571,16 +609,16 @@ class Impl:
             fail("params", f"get_opt_params gives {pname(s['params'])}, required {pname(wantp)}")
         # a stop right now (and, once closed, the reload): error or prefix
         if not have_file:
-            if self.stale is None and ld != [E_NOTFOUND]:
+            if self.stale_now is None and ld != [E_NOTFOUND]:
                 fail("load-without-file", f"load of a never-opened trajectory gives {cname(ld[0])}")
-            if self.stale is not None and (fs != self.stale["fs"] or ld != self.stale["ld"]):
+            if self.stale_now is not None and (fs != self.stale_now["fs"] or ld != self.stale_now["ld"]):
                 fail("earlier-archive-touched", "the archive of an earlier run was read or modified before open(): "
                      f"members now {fs}", K_STALE)
         if foreign_members:
             fail("archive-content", f"after open() the archive holds {foreign_members}; this life pushed {P} and stored "
                  f"{pname(16 + self.saved) if self.saved is not None else 'no params'}"
-                 + (" (an archive of an earlier run was present when open() was called)" if self.stale else ""),
-                 K_STALE if self.stale else cls)
+                 + (" (an archive of an earlier run was present when open() was called)" if self.stale_now else ""),
+                 K_STALE if self.stale_now else cls)
         if not have_file:
             pass
         elif lds is None:
@@ -600,7 +638,7 @@ class Impl:
                 fail("load-prefix", f"reloading the file gives {[cname(c) for c in lds['iter'][1:-1]]} forwards, "
                      f"{[cname(c) for c in lds['rev'][1:-1]]} reversed (len {k}, {pname(lds['params'])}); pushed {P}, stored "
                      f"{pname(16 + self.saved) if self.saved is not None else 'no params'}: not a prefix / wrong parameters",
-                     K_STALE if (self.stale and foreign_members) else cls)
+                     K_STALE if (self.stale_now and foreign_members) else cls)
             elif self.nclose and (k != n or lds["final"] != s["final"]
                                   or lds["penult"] != (16 + P[-2] if n >= 2 else E_INDEX)):
                 fail("roundtrip", f"closed and reloaded: len {k} vs {n}, final {cname(lds['final'])}, penultimate "
@@ -646,9 +684,9 @@ class Impl:
                 _, ls, _ = obs_load("crash.zip")
                 items = ls["iter"][1:-1]
                 if items != [16 + t for t in self.P[:len(items)]] or ls["iter"][-1] != C_DONE:
-                    fails.append((K_STALE if self.stale else "OptimiserHistory|stop-inside-write", "crash-image-foreign",
+                    fails.append((K_STALE if self.stale_now else "OptimiserHistory|stop-inside-write", "crash-image-foreign",
                                   f"a {kind} image of the file loads as {[cname(c) for c in items]}: not a prefix of the "
-                                  f"pushed {self.P}" + (" (entries of an earlier run's archive)" if self.stale else "")))
+                                  f"pushed {self.P}" + (" (entries of an earlier run's archive)" if self.stale_now else "")))
                     break
             if got in allowed or (len(got) == 1 and got[0] in CLEAN_LOAD_ERRORS):
                 continue
@@ -699,13 +737,15 @@ def _root_record(im):
 def task_subtree(args):
     """all continuations of `prefix` up to `depth` more operations (DFS preorder).
     -> dict(ml, prefix, depth, nodes=[(path letters, coq ops, n, fails, code, changed)], stats)"""
-    ml, prefix, depth, quick = args
+    ml, prefix, depth, quick = args[:4]
+    alpha = args[4] if len(args) > 4 else OPS
     im = Impl(ml, quick)
     rec = _root_record(im)
     cops = []
     for op in prefix:
         rec = im.step(op)
-        cops.append(rec["cop"])
+        if rec["cop"] is not None:
+            cops.append(rec["cop"])
     nodes = []
 
     def visit(path, cops, rec, d):
@@ -713,27 +753,29 @@ def task_subtree(args):
         if d == 0:
             return
         snap = im.snapshot()
-        for op in OPS:
+        for op in alpha:
             im.restore(snap)
             r = im.step(op)
-            visit(path + [op], cops + [r["cop"]], r, d - 1)
+            visit(path + [op], cops + ([r["cop"]] if r["cop"] is not None else []), r, d - 1)
 
     visit(list(prefix), cops, rec, depth)
-    return {"ml": ml, "prefix": prefix, "depth": depth, "nodes": nodes, "stats": im.stats}
+    return {"ml": ml, "prefix": prefix, "depth": depth, "nodes": nodes, "stats": im.stats, "alpha": alpha}
 
 
 def task_expand(args):
     """BFS step: from a pickled snapshot apply every operation.  -> list of (op, record, snapshot, key)"""
-    ml, path, cops, blob, quick = args
+    ml, path, cops, blob, quick = args[:5]
+    alpha = args[5] if len(args) > 5 else OPS
     im = Impl(ml, quick)
     im.restore(pickle.loads(blob))
     snap = im.snapshot()
     out = []
-    for op in OPS:
+    for op in alpha:
         im.restore(snap)
         r = im.step(op)
         s2 = im.snapshot()
-        key = (ml, tuple(im.prev_flat), im.nadd, im.npar, tuple(im.P), im.opened_at, im.nclose, im.saved, im.single)
+        key = (ml, tuple(im.prev_flat), im.nadd, im.npar, tuple(im.P), im.opened_at, im.nclose, im.saved, im.single,
+               im.cd, im.ml_eff)
         out.append((op, r, pickle.dumps(s2), key))
     return path, cops, out, im.stats
 
@@ -746,7 +788,8 @@ def task_sequence(args):
     nodes, cops = [("", [], root["n"], [], 0, False)], []
     for i, op in enumerate(path):
         r = im.step(op)
-        cops.append(r["cop"])
+        if r["cop"] is not None:
+            cops.append(r["cop"])
         nodes.append((path[:i + 1], list(cops), r["n"], r["fails"], r["code"], r["changed"]))
     return {"ml": ml, "path": path, "nodes": nodes, "stats": im.stats}
 
@@ -932,18 +975,24 @@ def edge_oracles(ctx):
     os.makedirs("edge_sub", exist_ok=True)
     here = os.getcwd()
     os.chdir("edge_sub")
+    got = None
     try:
         for t in (1, 2, 3):
             h.add(mk_item(t))
         h.close()
+    except Exception as e:  # noqa
+        got = f"{type(e).__name__} raised by add/close after chdir"
     finally:
         os.chdir(here)
     try:
-        l = OptimiserHistory.load("edge_trj")
-        got = [icode(c) for c in l]
+        if got is None:
+            l = OptimiserHistory.load("edge_trj")
+            got = [icode(c) for c in l]
     except Exception as e:  # noqa
         got = type(e).__name__
-    check("chdir-and-suffix", got == [16, 17, 18, 19] and not os.listdir("edge_sub"),
+    stray = os.listdir("edge_sub")
+    shutil.rmtree("edge_sub", ignore_errors=True)
+    check("chdir-and-suffix", got == [16, 17, 18, 19] and not stray,
           f"open in one directory, add/close after chdir, load('edge_trj'): {got}")
     put("edge_trj2.zip", b"old content, not a zip")
     h2 = OptimiserHistory(maxlen=1)
@@ -1000,6 +1049,12 @@ def run(ctx):
         tasks.append((cfg, "", 0, True))
         for a in OPS:
             tasks.append((cfg, a, d - 1, True))
+    # the process changes its working directory (operation D) between the operations: no effect allowed
+    cd_cfgs = [(2, 4), ((1, "t", True), 3)] if quick else [(1, 5), (2, 5), (3, 5), ((1, "t", True), 5), ((2, "t.ZIP", True), 5)]
+    for cfg, d in cd_cfgs:
+        tasks.append((cfg, "", 0, True, OPS + "D"))
+        for a in OPS + "D":
+            tasks.append((cfg, a, d - 1, True, OPS + "D"))
     mp = get_context("fork")
     with mp.Pool(min(NPROC, 16), initializer=_worker_init, initargs=(ctx.work, REPO)) as pool:
         results = pool.map(task_subtree, tasks, chunksize=1)
@@ -1010,8 +1065,13 @@ def run(ctx):
             col.add_stats(r["stats"])
             for path, cops, n, fails, code, changed in r["nodes"]:
                 col.node("enum", r["ml"], path, fails, code, changed)
-            tterms.append(tree_term(r))
-            towners.append(r)
+            if "D" in r["alpha"]:
+                for path, cops, n, fails, code, changed in r["nodes"]:
+                    terms.append(node_term(r["ml"], cops, n))
+                    owners.append(("node", (r["ml"], path, cops, n)))
+            else:
+                tterms.append(tree_term(r))
+                towners.append(r)
         for r in results[5:8]:
             nd = r["nodes"][min(40, len(r["nodes"]) - 1)]
             ctx.cov["samples"].append({"stream": "enum", "case": {"config": cfg_str(r["ml"]), "ops": nd[0], "coq_ops": coq_ops(nd[1]),
@@ -1022,22 +1082,23 @@ def run(ctx):
         for ml in (1, 2, 3, (2, "t", True)) + (() if quick else ((1, "t.ZIP", True), (3, "t", True))):
             im = Impl(ml, quick)
             _root_record(im)
-            frontier.append((ml, "", [], pickle.dumps(im.snapshot()), quick))
+            frontier.append((ml, "", [], pickle.dumps(im.snapshot()), quick, OPS if quick else OPS + "D"))
         nb = 0
         for level in range(bfs_depth):
             outs = pool.map(task_expand, frontier, chunksize=max(1, len(frontier) // (4 * NPROC)))
             nxt = []
-            for (ml, _, _, _, _), (path, cops, out, st) in zip(frontier, outs):
+            for fr, (path, cops, out, st) in zip(frontier, outs):
+                ml = fr[0]
                 col.add_stats(st)
                 for op, r, blob, key in out:
-                    p2, c2 = path + op, cops + [r["cop"]]
+                    p2, c2 = path + op, cops + ([r["cop"]] if r["cop"] is not None else [])
                     col.node("bfs-dedup", ml, p2, r["fails"], r["code"], r["changed"])
                     terms.append(node_term(ml, c2, r["n"]))
                     owners.append(("node", (ml, p2, c2, r["n"])))
                     nb += 1
                     if key not in seen:
                         seen.add(key)
-                        nxt.append((ml, p2, c2, blob, quick))
+                        nxt.append((ml, p2, c2, blob, quick, OPS if quick else OPS + "D"))
             frontier = nxt
         ctx.log(f"state-deduplicated BFS to length {bfs_depth}: {nb} nodes, {len(seen)} distinct states")
         nrand = 30 if quick else 600
@@ -1047,7 +1108,7 @@ def run(ctx):
             if ctx.rng.random() < 0.5:
                 ml = (ml, ctx.rng.choice(NAMES), ctx.rng.random() < 0.6)
             ln = ctx.rng.randint(8, 30)
-            w = ctx.rng.choice(("AAAAAAOPCLU", "AAAAAAAAOPC", "OAPCLU", "AAAAOAAAAPAAAC"))
+            w = ctx.rng.choice(("AAAAAAOPCLUD", "AAAAAAAAOPCD", "OAPCLUD", "AAAAOAAAAPAAACLD"))
             seqs.append((ml, "".join(ctx.rng.choice(w) for _ in range(ln)), quick))
         for r in pool.map(task_sequence, seqs, chunksize=4):
             col.add_stats(r["stats"])
@@ -1109,7 +1170,8 @@ def run(ctx):
         observed.add(key)
         rep = {"kind": "reuse" if path == "<reuse>" else "operation-sequence", "maxlen": norm_cfg(ml)[0],
                "open_name": norm_cfg(ml)[1], "earlier_archive_present": norm_cfg(ml)[2], "ops": path, "oracle": name,
-               "legend": "O=open A=add(next tag) P=save_opt_params C=close L=replace by load() U=clean_up",
+               "legend": "O=open A=add(next tag) P=save_opt_params C=close L=replace by load() U=clean_up "
+                         "D=toggle the working directory between the scratch dir and its sub-directory",
                "observed_vs_required": what}
         before = len(ctx.violations)
         ctx.finding(key, f"{cfg_str(ml)} ops={path}: {what}", rep)
